@@ -259,6 +259,10 @@ def t_userauth_requests(env):
         if m == "password":
             fs += [F("change", "bool", False), F("password", "str", "wrong-pw")]
         elif m == "publickey":
+            # one template per user key type when the caller supplies several
+            for alg, blob, sig in env.get("pks", ()):
+                out.append(T("userauth-request:publickey-" + alg, 50, fs + [
+                    F("has_sig", "bool", True), F("alg", "text", alg), F("blob", "str", blob), F("sig", "str", sig)]))
             fs += [F("has_sig", "bool", True), F("alg", "text", env["pk_alg"]), F("blob", "str", env["pk_blob"]),
                    F("sig", "str", env["pk_sig"])]
         elif m == "keyboard-interactive":
